@@ -314,3 +314,29 @@ Example C01_recovers_tcp_example :
   TcpAnalyzer.tcp_within_capacityb [] 8 [] [tcpA1; tcpA2] = true /\
   map up_freq (snd (TcpAnalyzer.tcp_run [] 8 [] [tcpA1; tcpA2])) = [None; Some 1000%Z].
 Proof. exact c01_tcp_example. Qed.
+
+(* ---------------------------------------------------------------- HTTP analyzer model: key = the connection *)
+From HN Require Import Base.Cache Model.HttpFlow Model.HttpAnalyzer Proofs.HttpKeyed Proofs.HttpExamples.
+From HN Require Model.HttpRecog.
+
+Theorem C01_recovers_http : forall (Req Resp : Type) (parse_req : bytes -> option Req) (parse_resp : bytes -> option Resp)
+    (h probe : list bytes) (st : http_state) (K : fkey),
+  (forall f, In f h -> http_key f <> K) -> (forall f, In f probe -> http_key f = K) ->
+  http_within_capacityb parse_req parse_resp st (h ++ probe) = true -> http_within_capacityb parse_req parse_resp st probe = true ->
+  proj fkey (@http_out Req Resp) fkey_eqb K (http_results parse_req parse_resp st (h ++ probe))
+  = snd (HttpAnalyzer.http_run parse_req parse_resp st probe).
+Proof. exact @http_recovers. Qed.
+Check C01_recovers_http : forall (Req Resp : Type) (parse_req : bytes -> option Req) (parse_resp : bytes -> option Resp)
+    (h probe : list bytes) (st : http_state) (K : fkey),
+  (forall f, In f h -> http_key f <> K) -> (forall f, In f probe -> http_key f = K) ->
+  http_within_capacityb parse_req parse_resp st (h ++ probe) = true -> http_within_capacityb parse_req parse_resp st probe = true ->
+  proj fkey (@http_out Req Resp) fkey_eqb K (http_results parse_req parse_resp st (h ++ probe))
+  = snd (HttpAnalyzer.http_run parse_req parse_resp st probe).
+Print Assumptions C01_recovers_http.
+
+Example C01_recovers_http_example :
+  (forall f, In f http_history -> http_key f <> http_kA) /\
+  (forall f, In f [hA_syn; hA_r1; hA_r2; hA_resp] -> http_key f = http_kA) /\
+  http_within_capacityb HttpRecog.recog_req HttpRecog.recog_resp (cache_new 8) (http_history ++ [hA_syn; hA_r1; hA_r2; hA_resp]) = true /\
+  http_within_capacityb HttpRecog.recog_req HttpRecog.recog_resp (cache_new 8) [hA_syn; hA_r1; hA_r2; hA_resp] = true.
+Proof. exact http_recovers_example. Qed.
